@@ -18,7 +18,12 @@ RULE = ("Real client and server stacks exchange a ConfirmedPrivateTransfer over 
         "into no more segments than the request's max-segments code; with I-Am knowledge a request APDU is never longer than the "
         "I-Am's max-APDU and is segmented only toward a peer that can receive segments; if the message does not fit the requester "
         "gets an abort (apduTooLong / segmentationNotSupported / bufferOverflow), not silence; every window field is in 1..127 and "
-        "a segment-ack never carries a larger window than the sender of the segments proposed. Non-trivial: a configuration in "
+        "a segment-ack never carries a larger window than the sender of the segments proposed. Announcement histories (Hypothesis): "
+        "I-Ams of three devices moving among three addresses with changing limits, requests arriving from those addresses (segmented or "
+        "not, with or without segmented-response-accepted) and requests of boundary lengths sent to them by an application that keeps "
+        "I-Ams in its DeviceInfoCache; model = what each ADDRESS announced last (a device that announces from a new address has left "
+        "the old one; segmented-response-accepted in a later request means it can receive segments): every request APDU to a known "
+        "address is within its max-APDU, segmented only if it can receive segments, else a local abort. Non-trivial: a configuration in "
         "which some limit is binding (segmentation needed, or payload within 8 octets of a limit). Distinct by configuration.")
 ASSUMPTIONS = [
     "APDU length = octets after the NPCI as decoded by bpverif/ref/npci.py (fixed header included, as the standard defines max-APDU-length-accepted)",
@@ -137,7 +142,156 @@ def binding(c):
     return False
 
 
+
+# ---- histories of announcements: what an address said last is what counts ---------------------------------------------------------
+
+_happ = None
+SEGN = ("segmentedBoth", "segmentedTransmit", "segmentedReceive", "noSegmentation")
+
+
+def hist_app():
+    global _happ
+    if _happ is None:
+        from ..lab_stack import lib as lablib
+        from .. import clock as VC
+        L = lablib()
+        A = L.apdu
+
+        class PeerKeeper(L.app.Application):
+            """requests and serves ConfirmedPrivateTransfer, and keeps what its peers announce (I-Am) in the DeviceInfoCache"""
+            _startup_disabled = True
+
+            def __init__(self, device):
+                L.app.Application.__init__(self, device)
+                self.outcomes = []
+
+            def do_IAmRequest(self, apdu):
+                self.deviceInfoCache.iam_device_info(apdu)
+
+            def confirmation(self, apdu):
+                kind = "abort" if isinstance(apdu, A.AbortPDU) else type(apdu).__name__
+                self.outcomes.append((VC.clk.now, kind, getattr(apdu, "apduInvokeID", None), getattr(apdu, "apduAbortRejectReason", None)))
+
+            def do_ConfirmedPrivateTransferRequest(self, apdu):
+                resp = A.ConfirmedPrivateTransferACK(context=apdu)
+                resp.vendorID = 999
+                resp.serviceNumber = 1
+                resp.resultBlock = L.Any(L.OctetString(pattern(30, 0x33)))
+                self.response(resp)
+        _happ = PeerKeeper
+    return _happ
+
+
+def run_announce_history(ops):
+    """ops: ["iam", device, addr, max_apdu, seg] | ["send", addr, payload length] | ["peer-req", addr, sa, seg_first, maxresp code] | ["adv", dt]"""
+    from ..lab_stack import StackLab, lib as lablib
+    from .. import lab_device as LD
+    from .. import clock as VC
+    from .. import boot
+    from ..ref import npci as RN
+    L = lablib()
+    lab = StackLab()
+    boot.swallowed.take()
+    iut = lab.add_stack(1, hist_app(), segmentation="segmentedBoth", max_apdu=1476, max_segs=64, retries=0, apdu_timeout=1000, seg_timeout=500, app_timeout=3000)
+    att = lab.add_attacker(99)
+    said = {}            # addr -> dict(device, max_apdu, can_receive)
+    fails = []
+    stats = dict(sends=0, judged=0, binding=0, moved=0, upgraded=0)
+    inv_peer = [0]
+    for op in ops:
+        k = op[0]
+        if k == "iam":
+            _, dev, addr, mx, seg = op
+            # a device that announces from a new address is no longer at its old one
+            for a_, v in list(said.items()):
+                if v["device"] == dev and a_ != addr:
+                    del said[a_]
+                    stats["moved"] += 1
+            said[addr] = dict(device=dev, max_apdu=mx, can_receive=seg in (0, 2))
+            lab.inject(addr, 1, LD.iam_frame(dev, mx, seg))
+            lab.settle()
+        elif k == "peer-req":
+            _, addr, sa, seg_first, maxresp = op
+            inv_peer[0] = (inv_peer[0] + 1) % 200
+            body = bytes.fromhex("0903e71901")           # vendor 999, service 1, no parameters
+            apdu = RA.encode(dict(type=RA.CONF, seg=bool(seg_first), mor=bool(seg_first), sa=bool(sa), maxsegs=0, maxresp=maxresp, invoke=inv_peer[0], service=18, data=body,
+                                  seq=0, win=2))
+            lab.inject(addr, 1, RN.encode(dict(msg=None, dadr=None, sadr=None, er=True, prio=0, hop=None, data=apdu)))
+            lab.settle()
+            if sa and addr in said and not said[addr]["can_receive"]:
+                said[addr]["can_receive"] = True          # 'I accept a segmented response' says: I can receive segments
+                stats["upgraded"] += 1
+        elif k == "adv":
+            lab.run(lab.now + float(op[1]))
+            VC.clk.now = max(VC.clk.now, lab.now)
+        elif k == "send":
+            _, addr, n = op
+            stats["sends"] += 1
+            req = L.apdu.ConfirmedPrivateTransferRequest(vendorID=999, serviceNumber=1)
+            req.serviceParameters = L.Any(L.OctetString(pattern(n, 0x21)))
+            req.pduDestination = L.Address(addr)
+            mark = len(att.seen)
+            n_out = len(iut.app.outcomes)
+            try:
+                iut.app.request(req)
+            except Exception as err:
+                fails.append(("hist:submit-raised:%s" % type(err).__name__, "send %r raised %r" % (op, err)))
+                break
+            lab.settle()
+            inv = req.apduInvokeID
+            sent = []
+            for (t, src, dst, data) in att.seen[mark:]:
+                if src is None or src.addrAddr != b"\x01" or dst is None or dst.addrAddr != bytes([addr]):
+                    continue
+                try:
+                    nn = RN.decode(data)
+                    if nn["msg"] is not None:
+                        continue
+                    a = RA.decode(nn["data"])
+                except Exception:
+                    continue
+                if a["type"] == 0 and a["invoke"] == inv:
+                    sent.append((len(nn["data"]), bool(a.get("seg"))))
+            if addr not in said:
+                continue
+            stats["judged"] += 1
+            v = said[addr]
+            desc = "history %r: address %d last announced device %d, max-APDU %d, %s" % (ops, addr, v["device"], v["max_apdu"], "can receive segments" if v["can_receive"] else "cannot receive segments")
+            total = txn.service_data_len(n) + 4
+            if total > v["max_apdu"]:
+                stats["binding"] += 1
+            for ln, seg in sent:
+                if ln > v["max_apdu"]:
+                    fails.append(("hist:request-exceeds-announced-max-apdu:%s" % ("segmented" if seg else "unsegmented"), "%s; an APDU of %d octets was sent to it" % (desc, ln)))
+                    break
+                if seg and not v["can_receive"]:
+                    fails.append(("hist:segmented-toward-peer-that-cannot-receive-segments", "%s; a segment of %d octets was sent to it" % (desc, ln)))
+                    break
+            if not sent:
+                ab = [o for o in iut.app.outcomes[n_out:] if o[1] == "abort" and o[2] == inv]
+                if not ab:
+                    fails.append(("hist:nothing-sent-and-no-abort", "%s; a request of %d octets produced neither a frame nor an abort" % (desc, total)))
+                elif total <= v["max_apdu"]:
+                    fails.append(("hist:aborted-although-it-fits", "%s; a request of %d octets was aborted locally (reason %r)" % (desc, total, ab[0][3])))
+            elif total > v["max_apdu"] and not v["can_receive"]:
+                pass     # (already reported above as too long or as segmented)
+        if fails:
+            break
+    sw = [r for r in boot.swallowed.take() if r[0]]
+    if fails and sw:
+        fails = [(fails[0][0] + ":%s@%s" % (sw[0][0], sw[0][1]), fails[0][1] + " swallowed %r" % (sw[:2],))] + fails[1:]
+    return fails[:2], stats
+
+
 def judge(case):
+    if case.get("k") == "announce":
+        try:
+            with watchdog(60):
+                fails, stats = run_announce_history(case["ops"])
+        except Stall:
+            return Verdict([("stall", "no return within 60 s")], True, ("stall",))
+        labels = ["announce"] + [x for x in ("moved", "upgraded", "binding") if stats[x]]
+        return Verdict(fails, stats["binding"] > 0, labels)
     try:
         with watchdog(60):
             plan = dict((int(k), tuple(v)) for k, v in (case.get("plan") or {}).items())
@@ -195,10 +349,22 @@ def plan(tier, seed):
     specs.append(dict(name="windows", kind="windows"))
     for i in range(8):
         specs.append(dict(name="random-%d" % i, kind="random", n=2500 if tier == "quick" else 40000))
+    for i in range(6):
+        specs.append(dict(name="announcements-%d" % i, kind="announce", n=1200 if tier == "quick" else 15000))
     return specs
 
 
 def run(spec, ctx):
+    if spec["kind"] == "announce":
+        from hypothesis import strategies as st
+        addr = st.sampled_from([11, 12, 13])
+        iam = st.tuples(st.just("iam"), st.sampled_from([5, 7, 9]), addr, st.sampled_from([50, 128, 206, 480, 1024, 1476]), st.integers(0, 3)).map(list)
+        send = st.tuples(st.just("send"), addr, st.sampled_from([0, 5, 38, 39, 40, 41, 100, 116, 117, 118, 119, 194, 195, 196, 197, 300, 468, 469, 470, 471, 600, 1012, 1013, 1014, 1015,
+                                                               1400, 1464, 1465, 1466, 1467, 1500, 3000])).map(list)
+        preq = st.tuples(st.just("peer-req"), addr, st.booleans(), st.booleans(), st.sampled_from([0, 1, 3, 5])).map(list)
+        adv = st.tuples(st.just("adv"), st.sampled_from([0.0, 1.5, 5.0])).map(list)
+        ctx.for_all(st.lists(st.one_of(iam, iam, iam, send, send, send, preq, adv), min_size=2, max_size=14).map(lambda o: dict(k="announce", ops=o)), spec["n"])
+        return
     if spec["kind"] == "caps":
         space = cfg_space(spec["tier"])
         for ci in spec["idx"]:
